@@ -86,6 +86,9 @@ pub fn options_from_json(o: &Value) -> WriteOptions {
         Some("default") => Some(ValidationOptions {
             capabilities: WgslCapabilities::default(),
         }),
+        Some(b) if b.starts_with("bits:") => Some(ValidationOptions {
+            capabilities: WgslCapabilities::from_bits_truncate(b[5..].parse().unwrap_or(0)),
+        }),
         Some(_) => Some(ValidationOptions::default()),
     };
     WriteOptions {
@@ -99,8 +102,70 @@ pub fn options_from_json(o: &Value) -> WriteOptions {
     }
 }
 
+struct AttrCommas;
+impl syn::visit_mut::VisitMut for AttrCommas {
+    fn visit_macro_mut(&mut self, m: &mut syn::Macro) {
+        let mut toks: Vec<proc_macro2::TokenTree> = m.tokens.clone().into_iter().collect();
+        if let Some(proc_macro2::TokenTree::Punct(p)) = toks.last() {
+            if p.as_char() == ',' {
+                toks.pop();
+                m.tokens = toks.into_iter().collect();
+            }
+        }
+    }
+    fn visit_attribute_mut(&mut self, a: &mut syn::Attribute) {
+        // `#[derive(A, B,)]` and `#[derive(A, B)]` are the same program: rustfmt adds the
+        // trailing comma when it wraps a long list, and attribute arguments are raw tokens
+        // for syn, so normalise them here
+        if let syn::Meta::List(l) = &mut a.meta {
+            let mut toks: Vec<proc_macro2::TokenTree> = l.tokens.clone().into_iter().collect();
+            if let Some(proc_macro2::TokenTree::Punct(p)) = toks.last() {
+                if p.as_char() == ',' {
+                    toks.pop();
+                    l.tokens = toks.into_iter().collect();
+                }
+            }
+        }
+    }
+}
+
+fn flatten(ts: proc_macro2::TokenStream, out: &mut String) {
+    for t in ts {
+        match t {
+            proc_macro2::TokenTree::Group(g) => {
+                let (o, c) = match g.delimiter() {
+                    proc_macro2::Delimiter::Parenthesis => ("(", ")"),
+                    proc_macro2::Delimiter::Brace => ("{", "}"),
+                    proc_macro2::Delimiter::Bracket => ("[", "]"),
+                    proc_macro2::Delimiter::None => ("", ""),
+                };
+                out.push_str(o);
+                out.push(' ');
+                flatten(g.stream(), out);
+                out.push_str(c);
+                out.push(' ');
+            }
+            other => {
+                out.push_str(&other.to_string());
+                out.push(' ');
+            }
+        }
+    }
+}
+
+/// Canonical form: "the same Rust program token for token".  The file goes through syn and
+/// prettyplease (which normalises trailing commas and parentheses where the grammar makes them
+/// optional), trailing commas at the end of attribute / macro argument lists are dropped, and
+/// the printed text is re-tokenised so that only the token sequence counts (inside macro
+/// invocations such as `assert!(..)` the printer keeps the original token spacing).
 pub fn canon(text: &str) -> Option<String> {
-    syn::parse_file(text).ok().map(|f| prettyplease::unparse(&f))
+    let mut f = syn::parse_file(text).ok()?;
+    syn::visit_mut::VisitMut::visit_file_mut(&mut AttrCommas, &mut f);
+    let printed = prettyplease::unparse(&f);
+    let ts: proc_macro2::TokenStream = printed.parse().ok()?;
+    let mut out = String::new();
+    flatten(ts, &mut out);
+    Some(out)
 }
 
 fn guarded<T>(f: impl FnOnce() -> T) -> Result<T, String> {
@@ -343,7 +408,12 @@ pub fn run_job(job: &Value, markers: bool) -> Value {
             }
             if job.get("canon").and_then(|v| v.as_bool()).unwrap_or(false) {
                 match canon(&text) {
-                    Some(c) => out["canon_sha"] = json!(hash_hex(c.as_bytes())),
+                    Some(c) => {
+                        if job.get("canon_text").and_then(|v| v.as_bool()).unwrap_or(false) {
+                            out["canon_text"] = json!(c);
+                        }
+                        out["canon_sha"] = json!(hash_hex(c.as_bytes()))
+                    }
                     None => out["canon_sha"] = Value::Null,
                 }
             }
